@@ -10,8 +10,10 @@ use std::{
 };
 
 type NonceSource = Box<dyn Fn(&[u8], &mut [u8]) + Send + Sync>;
+type SchedPoint = Box<dyn Fn(&'static str, &str) + Send + Sync>;
 
 static NONCE_SOURCE: RwLock<Option<NonceSource>> = RwLock::new(None);
+static SCHED_POINT: RwLock<Option<SchedPoint>> = RwLock::new(None);
 static PROBES: Mutex<BTreeMap<&'static str, u64>> = Mutex::new(BTreeMap::new());
 
 /// Arm (Some) or disarm (None) the nonce source. When armed, the nonce of every
@@ -35,4 +37,17 @@ pub fn probe(name: &'static str) {
 /// Take (and reset) all probe counters.
 pub fn take_probes() -> BTreeMap<&'static str, u64> {
     std::mem::take(&mut *PROBES.lock().unwrap())
+}
+
+/// Arm (Some) or disarm (None) the scheduling-point callback.
+pub fn set_sched_point(f: Option<SchedPoint>) {
+    *SCHED_POINT.write().unwrap() = f;
+}
+
+/// A point at which two concurrently running pipeline stages of the library start to race on
+/// shared state. When armed, the simulator parks the calling thread here until it is released.
+pub(crate) fn sched_point(name: &'static str, what: &str) {
+    if let Some(f) = SCHED_POINT.read().unwrap().as_ref() {
+        f(name, what);
+    }
 }
